@@ -148,7 +148,7 @@ class Check(PropertyCheck):
                     x = rows[i] if rows[i].strip() else "+"
                     rows[i] = (x[:-1] + " ") if r.chance(1, 2) else (" " * (len(x) - len(x.lstrip()) + 1) + x.lstrip()[1:])
             art = "\n".join(x.rstrip() for x in rows)
-            if r.chance(1, 8):
+            if r.chance(1, 8) and sum(1 for x in out if len(x) > 30000) < 150:
                 # far from the origin: where a narrower integer type wraps and a float tolerance exceeds the grid pitch
                 far = r.choice(gen.FAR + [50000, 150000, 250000]) + r.below(3)
                 out.append(gen.place(art, far, 0) if r.chance(1, 2) else gen.place(art, r.below(3), far))
